@@ -783,7 +783,10 @@ class C09(Prop):
                # pointer chains: a nil link at any depth is nil, never a crash
                "(ptr (nilptr int))", "(ptr (ptr (nilptr str)))", "(struct (Name (str 416e6e)) (Email (ptr (nilptr str))))",
                "(slice (ptr (nilptr int)) (int 2))", "(map (%s (ptr (nilptr int))))" % hx("k"), "(ptr (ptr (ptr (int 7))))",
-               "(ptr (struct (P (ptr (nilptr int))) (Q (nilptr int))))", "(nilchan)", "(nilfunc)", "(struct (Cb (nilfunc)) (N (int 1)))"]
+               "(ptr (struct (P (ptr (nilptr int))) (Q (nilptr int))))", "(nilchan)", "(nilfunc)", "(struct (Cb (nilfunc)) (N (int 1)))",
+               # data that contains itself (through a pointer, a map, a slice) cannot be shown: an error, not a dead process;
+               # the same pointer used twice without a cycle is ordinary data
+               "(cyc)", "(cycmap)", "(cycslice)", "(cyc2)", "(slice (int 1) (cyc))", "(map (%s (cycmap)))" % hx("k"), "(shared)"]
         for i, b in enumerate(bad):
             for src in ["{{ v }}", "x", "{{ v.F }}", "@each(e in v){{ e }}@end", "{{ v.email ? 'yes' : 'no' }}{{ v.p }}{{ v[0] }}", "@dump(v)"][:5]:
                 lines.append("C09:d%d_%d\trender\t%s\t%s" % (i, len(lines), hx(src), hx("((%s %s))" % (hx("v"), b))))
@@ -2232,6 +2235,12 @@ class C20(Prop):
                    op_evalstr("{{ x = %s }}{{ x.reverse() }}|{{ x }}|{{ x }}|{{ x }}" % recv, self.DATA)]
             lines.append(tree_case("C20:m%d" % i, [("tpl/p.tw", "file", "p")], ops,
                                    ["nopanic", "ok:0", "ok:1", "ok:2", "ok:3", "eq:2:3", "eq:4:5"]))
+        # a result that holds a value textwire cannot represent is an error, like the same value passed as data
+        for i, fn in enumerate(["unsup", "unsup2"]):
+            ops = ["(reg arr %s %s)" % (hx("bad"), fn), op_evalstr("{{ [1].bad() }}"), op_evalstr("{{ x = [1, 2].bad() }}ok"),
+                   op_evalstr("@each(v in av.bad()){{ v }}@end", self.DATA), op_evalstr("{{ [1].bad().len() }}"), op_evalstr("{{ [2].len() }}")]
+            lines.append(tree_case("C20:u%d" % i, [("tpl/p.tw", "file", "p")], ops,
+                                   ["nopanic", "ok:0", "err:1", "err:2", "err:3", "err:4", "out:5:" + hx("1")]))
         # custom functions are available wherever a template is evaluated: in component files, slot bodies, layouts, inserts
         files = [("tpl/page.tw", "file", "{{ name.sh() }}|@component('~card', {title: name})@slot {{ name.sh() }}@end@end"),
                  ("tpl/components/card.tw", "file", "<b>{{ title.sh() }}</b>@slot"),
